@@ -31,6 +31,8 @@ PY
   git -C $wt checkout -q -- . ; git -C $wt clean -fdq
   if [ $rc -eq 1 ] && echo "$out" | grep -q "^VIOLATION property=$prop"; then
     echo "CAUGHT $id by $prop: $(echo "$out" | grep -m1 signature | cut -c1-120)"
+  elif [ $rc -eq 2 ]; then
+    echo "NOBUILD $id (the patch applies but the tree does not build with it): $(echo "$out" | tail -1 | cut -c1-160)"
   else
     echo "MISSED $id by $prop (exit $rc): $(echo "$out" | tail -1 | cut -c1-160)"
   fi
